@@ -290,7 +290,7 @@ def replay(payload):
         print("nothing to replay: %s" % payload.get("no_longer_checks"))
         return False
     c = f["case"]
-    if "obj" in c or "cells" in c or "reps" in c:
+    if "obj" in c or "cells" in c or "reps" in c or "recarray" in c:
         from props import c05_rep
         return c05_rep.replay_case(c)
     t = B.unpack_t(c["tmpl"])
